@@ -62,6 +62,10 @@ def check(ctx):
     # mechanisms this property rests on (see shared.py): a change there is reported here as well
     from . import shared as _sh
 
+    # a record that is left out of the converted stream designates nothing: the 1:1 streaming rule of C02 is C01's too
+    from . import c02 as _c02
+
+    ctx.run_shared(lambda c_: _c02.r02_1(c_, m))
     ctx.run_shared(_sh.path_tokenisers)
     ctx.run_shared(_sh.gaf_reader)
     ctx.run_shared(_sh.graph_loader)
@@ -486,6 +490,10 @@ def r01_5(ctx, m):
     detail = {}
     if iff:
         st = iff[0]
+        if not st.orelse and st.body and isinstance(st.body[-1], ast.Continue) and st in loop.body:
+            # guard clause: `if C: A; continue` followed by B is `if C: A else: B`
+            st = ast.If(test=st.test, body=st.body[:-1] or [ast.Pass()], orelse=loop.body[loop.body.index(st) + 1 :])
+            ast.copy_location(st, iff[0])
         t, pol = canon_test(st.test, True)
         fail_body, ok_body = (st.body, st.orelse) if (t == f"{res} is False" and pol) or (t == res and not pol) or (t == f"{res} == False" and pol) else (st.orelse, st.body)
         fb = [norm(s) for s in fail_body]
@@ -1032,6 +1040,16 @@ def r01_10(ctx, f, site):
     ctx.check(late is None, "R01.10", f.where(late if late is not None else iv_loop), "every sign written in front of a segment id is the orientation of the interval that segment was found for (the sign and the id are joined inside the per-interval loop)", key_of(f, f"sign-after-loop:{norm(parents.get(id(late)))[:60] if late is not None else ''}"), **({"late_use": norm(parents.get(id(late)))[:80], "why": f"`{late.id}` is bound once per interval; after the loop it holds the orientation of the last interval only, so the segments of every interval of a mixed path (`>chr1:0-10<hapA:5-9`) are written with that one sign"} if late is not None else {"joined_in_loop": n_in}))
     if late is None and n_in == 0:
         raise AnalysisError("R01.10", f.where(iv_loop), "cannot find where the orientation sign is joined with the segment ids")
+    # every kept segment is written: inside the loop that walks the kept segments the join is not skipped under a test of the segment
+    seglist = norm(site.append.value.func.value)
+    for lp in walk_own(f.node):
+        if isinstance(lp, ast.For) and lp is not site.loop and seglist in {norm(x) for x in ast.walk(lp.iter)} and isinstance(lp.target, ast.Name):
+            tv = lp.target.id
+            for iff in [y for b in lp.body for y in ast.walk(b) if isinstance(y, ast.If)]:
+                if tv in {x.id for x in ast.walk(iff.test) if isinstance(x, ast.Name)}:
+                    skips = any(isinstance(y, ast.Continue) for b in iff.body for y in ast.walk(b)) or any(isinstance(x, ast.Name) and x.id in orient for b in iff.body + iff.orelse for x in ast.walk(b))
+                    if skips:
+                        ctx.violated("R01.10", f.where(iff), f"inside the loop that writes the kept segments, `{norm(iff.test)[:50]}` decides per segment whether it is written: a segment the overlap filter kept (a second visit of the same segment in a hairpin `>s3<s3` or a tandem loop `>s3>s3`) is dropped from the path while the path length and offsets still count it", key_of(f, f"kept-segment-not-written:{norm(iff.test)[:40]}"))
 
 
 def _stmt_of(f, node):
